@@ -145,6 +145,41 @@ def forwarding_pass(dseed):
     return dict(recs=recs, entered=sorted(entered_ok), other=seen_other)
 
 
+def observe_dispatch(uni):
+    """call unyt_array.__array_function__ directly for every dispatcher function, with and without a
+    foreign type among `types`: {(f, foreign): 'raised' (NotImplemented → TypeError) | 'handler' | 'kernel'}"""
+    import warnings
+
+    import numpy as np
+    import unyt
+
+    import npcatalog as C
+    import c06_trace as TR
+
+    class Foreign(np.ndarray):
+        pass
+
+    obs = {}
+    for f in uni:
+        func = C.universe()[f]
+        for foreign in (False, True):
+            x = unyt.unyt_array(np.arange(4.0).reshape(2, 2) + 1.0, "m")
+            types = (unyt.unyt_array, Foreign) if foreign else (unyt.unyt_array, np.ndarray)
+            with TR.recording() as rec, warnings.catch_warnings():
+                warnings.simplefilter("ignore")
+                try:
+                    r = x.__array_function__(func, types, (x,), {})
+                except BaseException:  # noqa: BLE001
+                    r = "exception"
+            if r is NotImplemented:
+                obs[(f, foreign)] = "raised"
+            elif rec.entered and rec.entered[0] == f:
+                obs[(f, foreign)] = "handler"
+            else:
+                obs[(f, foreign)] = "kernel"
+    return obs
+
+
 def fwd_replay(tid, dk, sc, seed, om, defect):
     return (
         "import sys, warnings\nwarnings.simplefilter('ignore')\n"
@@ -224,6 +259,18 @@ def run(tier, seed):
         for f in live_handled + live_unsup:
             if f not in uni:
                 chk.disagree("c06.universe", f"{f} is in unyt's tables but not a dispatcher of this NumPy")
+    if model is not None:
+        obs = observe_dispatch(uni)
+        try:
+            dr = model.ask([f"c06.dispatch\t{f}\t{1 if fo else 0}" for (f, fo) in obs])
+        except Exception as e:  # noqa: BLE001
+            dr = []
+            chk.disagree("driver", repr(e))
+        for ((f, fo), o), r in zip(obs.items(), dr):
+            chk.case(("dispatch", f, fo))
+            chk.count("dispatch:" + o)
+            if len(r) < 2 or r[1] != o:
+                chk.disagree("c06.dispatch", f"{f} foreign={fo}: model {r} observed {o}")
     known = [k for k in core.load_known() if k["property"] == "C06" and k.get("status") == "known"]
     known_fwd = {k["key"] for k in known if k.get("kind") == "forwarding"}
     if rep is not None and excl != known_fwd:
@@ -277,7 +324,7 @@ def run(tier, seed):
         if entered:
             chk.disagree("c06.route", f"{f} is not in _HANDLED_FUNCTIONS but a handler of that name ran")
         if f in live_unsup and outcome != "raise:TypeError":
-            chk.fail(f"{f}|unsupported-returns", f"{f} is declared unsupported but a call on quantities gave {outcome}", {"python": "assert False"})
+            chk.disagree("c06.route", f"{f} is in _UNSUPPORTED_FUNCTIONS but a call on quantities gave {outcome}")
     if model is not None and lines:
         try:
             reps = model.ask(lines)
